@@ -178,7 +178,7 @@ fn shrink_common(j: &J) -> Vec<J> {
     out
 }
 
-fn base_out(run: &E1Run, tr: &Trace) -> RunOut {
+pub fn base_out(run: &E1Run, tr: &Trace) -> RunOut {
     let mut out = RunOut::default();
     out.hash = run.hash();
     out.sim_steps = run.obs.len() as u64;
